@@ -24,42 +24,74 @@ fn spec_of(s2k: &StringToKey) -> Option<String> {
     })
 }
 
+/// primary and subkey secret packets behind one interface
+trait LockKey: Clone + Serialize {
+    const TAG: u8;
+    fn pub_bytes(&self) -> Option<Vec<u8>>;
+    fn ver(&self) -> KeyVersion;
+    fn lock(&mut self, pw: &Password, p: S2kParams) -> pgp::errors::Result<()>;
+    fn unlock_in_place(&mut self, pw: &Password) -> pgp::errors::Result<()>;
+    fn sparams(&self) -> &SecretParams;
+    fn with_params(&self, p: SecretParams) -> Option<Self>;
+    fn parse(w: &[u8]) -> Option<Self>;
+    fn packet(&self) -> Packet;
+}
+impl LockKey for SecretKey {
+    const TAG: u8 = 5;
+    fn pub_bytes(&self) -> Option<Vec<u8>> { self.public_key().to_bytes().ok() }
+    fn ver(&self) -> KeyVersion { self.version() }
+    fn lock(&mut self, pw: &Password, p: S2kParams) -> pgp::errors::Result<()> { self.set_password_with_s2k(pw, p) }
+    fn unlock_in_place(&mut self, pw: &Password) -> pgp::errors::Result<()> { self.remove_password(pw) }
+    fn sparams(&self) -> &SecretParams { self.secret_params() }
+    fn with_params(&self, p: SecretParams) -> Option<Self> { SecretKey::new(self.public_key().clone(), p).ok() }
+    fn parse(w: &[u8]) -> Option<Self> { match PacketParser::new(w).next() { Some(Ok(Packet::SecretKey(k))) => Some(k), _ => None } }
+    fn packet(&self) -> Packet { Packet::from(self.clone()) }
+}
+impl LockKey for pgp::packet::SecretSubkey {
+    const TAG: u8 = 7;
+    fn pub_bytes(&self) -> Option<Vec<u8>> { self.public_key().to_bytes().ok() }
+    fn ver(&self) -> KeyVersion { self.version() }
+    fn lock(&mut self, pw: &Password, p: S2kParams) -> pgp::errors::Result<()> { self.set_password_with_s2k(pw, p) }
+    fn unlock_in_place(&mut self, pw: &Password) -> pgp::errors::Result<()> { self.remove_password(pw) }
+    fn sparams(&self) -> &SecretParams { self.secret_params() }
+    fn with_params(&self, p: SecretParams) -> Option<Self> { pgp::packet::SecretSubkey::new(self.public_key().clone(), p).ok() }
+    fn parse(w: &[u8]) -> Option<Self> { match PacketParser::new(w).next() { Some(Ok(Packet::SecretSubkey(k))) => Some(k), _ => None } }
+    fn packet(&self) -> Packet { Packet::from(self.clone()) }
+}
+
 /// the pieces of an unlocked secret key packet: public fields, raw secret material
-fn pieces(sk: &SecretKey) -> Option<(Vec<u8>, Vec<u8>)> {
+fn pieces<K: LockKey>(sk: &K) -> Option<(Vec<u8>, Vec<u8>)> {
     let body = sk.to_bytes().ok()?;
-    let pubb = sk.public_key().to_bytes().ok()?;
+    let pubb = sk.pub_bytes()?;
     if body.len() < pubb.len() + 1 || body[..pubb.len()] != pubb[..] || body[pubb.len()] != 0 { return None; }
-    let v6 = sk.version() == KeyVersion::V6;
+    let v6 = sk.ver() == KeyVersion::V6;
     let end = if v6 { body.len() } else { body.len().checked_sub(2)? };
     Some((pubb.clone(), body[pubb.len() + 1..end].to_vec()))
 }
 
-fn parse_secret(w: &[u8]) -> Option<SecretKey> {
-    match PacketParser::new(w).next() { Some(Ok(Packet::SecretKey(k))) => Some(k), _ => None }
-}
 
 impl Ctx {
     /// lock (through the API, or by constructing the locked packet for the usages the library only
     /// reads), write, parse, compare with the model, unlock, wrong passwords, tampering
-    fn lock_case(&mut self, kname: &str, sk: &SecretKey, vname: &str, params: &S2kParams, pw: &[u8]) {
-        let cls = format!("{}-{vname}", if sk.version() == KeyVersion::V6 { "v6" } else { "v4" });
+    fn lock_case<K: LockKey>(&mut self, kname: &str, sk: &K, vname: &str, params: &S2kParams, pw: &[u8]) {
+        let cls = format!("{}{}-{vname}", if sk.ver() == KeyVersion::V6 { "v6" } else { "v4" }, if K::TAG == 7 { "sub" } else { "" });
         let Some((pubb, raw)) = pieces(sk) else { return; };
         let password = Password::from(pw);
-        let tagn = 5u8;
+        let tagn = K::TAG;
         // --- build the locked key
-        let built: Result<Option<SecretKey>, String> = guarded(|| match params {
-            S2kParams::Cfb { .. } | S2kParams::Aead { .. } => { let mut k = sk.clone(); k.set_password_with_s2k(&password, params.clone()).ok().map(|_| k) }
+        let built: Result<Option<K>, String> = guarded(|| match params {
+            S2kParams::Cfb { .. } | S2kParams::Aead { .. } => { let mut k = sk.clone(); k.lock(&password, params.clone()).ok().map(|_| k) }
             S2kParams::MalleableCfb { sym_alg, s2k, iv } => {
                 let key = s2k.derive_key(pw, sym_alg.key_size()).ok()?;
                 let mut d = raw.clone(); d.extend(sum16(&raw));
                 sym_alg.encrypt_with_iv_regular(key.as_ref(), iv, &mut d).ok()?;
-                SecretKey::new(sk.public_key().clone(), SecretParams::Encrypted(EncryptedSecretParams::new(d.into(), params.clone()))).ok()
+                sk.with_params(SecretParams::Encrypted(EncryptedSecretParams::new(d.into(), params.clone())))
             }
             S2kParams::LegacyCfb { sym_alg, iv } => {
                 let key = StringToKey::Simple { hash_alg: HashAlgorithm::Md5 }.derive_key(pw, sym_alg.key_size()).ok()?;
                 let mut d = raw.clone(); d.extend(sum16(&raw));
                 sym_alg.encrypt_with_iv_regular(key.as_ref(), iv, &mut d).ok()?;
-                SecretKey::new(sk.public_key().clone(), SecretParams::Encrypted(EncryptedSecretParams::new(d.into(), params.clone()))).ok()
+                sk.with_params(SecretParams::Encrypted(EncryptedSecretParams::new(d.into(), params.clone())))
             }
             S2kParams::Unprotected => None,
         });
@@ -68,15 +100,15 @@ impl Ctx {
             Ok(None) => { self.out.case("", &[], &["lock".into(), kname.into(), vname.into(), hx(pw)], "lock-refused", Some(true), &format!("{cls}-lock-refused")); return; }
             Err(p) => { self.out.case("", &[], &["lock".into(), kname.into(), vname.into(), hx(pw)], &p, Some(false), &format!("{cls}-lock-panic")); return; }
         };
-        let Ok(w) = Packet::from(locked.clone()).to_bytes() else { return; };
+        let Ok(w) = locked.packet().to_bytes() else { return; };
         let rp = vec!["locked".to_string(), hx(&w), hx(pw), hx(&sk.to_bytes().unwrap_or_default())];
         // --- from the wire
-        let Some(k3) = parse_secret(&w) else {
+        let Some(k3) = K::parse(&w) else {
             // a protection the library does not accept from the wire (v6 with usage 255 / legacy) is outside the property
             let built_by_api = matches!(params, S2kParams::Cfb { .. } | S2kParams::Aead { .. });
             self.out.case("", &[], &rp, "locked key is not accepted from the wire", Some(!built_by_api), &format!("{cls}-not-accepted")); return;
         };
-        let SecretParams::Encrypted(enc) = k3.secret_params() else { self.out.case("", &[], &rp, "parsed as unprotected", Some(false), &format!("{cls}-unparseable")); return; };
+        let SecretParams::Encrypted(enc) = k3.sparams() else { self.out.case("", &[], &rp, "parsed as unprotected", Some(false), &format!("{cls}-unparseable")); return; };
         let ct = enc.data().to_vec();
         // --- the model computes the protected octets from the same inputs
         let (op, args): (&str, Vec<String>) = match params {
@@ -86,7 +118,7 @@ impl Ctx {
             },
             S2kParams::LegacyCfb { sym_alg, iv } => ("lock", vec!["0".into(), u8::from(*sym_alg).to_string(), "legacy".into(), hx(pw), hx(iv), hx(&raw)]),
             S2kParams::Aead { sym_alg, aead_mode, s2k, nonce } => match spec_of(s2k) {
-                Some(sp) => ("lockaead", vec![tagn.to_string(), u8::from(sk.version()).to_string(), u8::from(*sym_alg).to_string(), u8::from(*aead_mode).to_string(), sp, hx(pw), hx(nonce), hx(&pubb), hx(&raw)]),
+                Some(sp) => ("lockaead", vec![tagn.to_string(), u8::from(sk.ver()).to_string(), u8::from(*sym_alg).to_string(), u8::from(*aead_mode).to_string(), sp, hx(pw), hx(nonce), hx(&pubb), hx(&raw)]),
                 None => ("", vec![]),
             },
             S2kParams::Unprotected => ("", vec![]),
@@ -96,7 +128,7 @@ impl Ctx {
         self.out.case(op, &args, &rp, &hx(&ct), Some(usage_ok), &format!("{cls}-protected-octets"));
         // --- right password
         let orig = sk.to_bytes().unwrap_or_default();
-        let r = guarded(|| { let mut k = k3.clone(); k.remove_password(&password).map(|_| k.to_bytes().unwrap_or_default()) });
+        let r = guarded(|| { let mut k = k3.clone(); k.unlock_in_place(&password).map(|_| k.to_bytes().unwrap_or_default()) });
         match r {
             Ok(Ok(b)) => self.out.case("", &[], &rp, if b == orig { "restored" } else { "DIFFERENT-MATERIAL" }, Some(b == orig), &format!("{cls}-unlock")),
             Ok(Err(e)) => self.out.case("", &[], &rp, &format!("unlock-failed: {}", &e.to_string()[..e.to_string().len().min(80)]), Some(false), &format!("{cls}-unlock-failed")),
@@ -107,7 +139,7 @@ impl Ctx {
         wrongs.retain(|x| x != pw);
         wrongs.dedup();
         for wp in wrongs {
-            let r = guarded(|| { let mut k = k3.clone(); k.remove_password(&Password::from(&wp[..])).is_ok() });
+            let r = guarded(|| { let mut k = k3.clone(); k.unlock_in_place(&Password::from(&wp[..])).is_ok() });
             let mut rp2 = rp.clone(); rp2[0] = "wrongpw".into(); rp2.push(hx(&wp));
             match r {
                 Ok(acc) => self.out.case("", &[], &rp2, if acc { "ACCEPTED" } else { "rejected" }, Some(!acc), &format!("{cls}-wrong-password")),
@@ -130,13 +162,13 @@ impl Ctx {
         for bit in bits {
             let mut v = w.clone(); v[hl + bit / 8] ^= 1 << (bit % 8);
             let r = guarded(|| {
-                let k = parse_secret(&v)?;
-                if !matches!(k.secret_params(), SecretParams::Encrypted(_)) {
+                let k = K::parse(&v)?;
+                if !matches!(k.sparams(), SecretParams::Encrypted(_)) {
                     // the flip turned the key into an unprotected one: its material is whatever the octets say; not an unlock
                     return None;
                 }
                 let mut k2 = k.clone();
-                k2.remove_password(&password).ok()?;
+                k2.unlock_in_place(&password).ok()?;
                 let (p2, r2) = pieces(&k2)?;
                 Some((p2, r2))
             });
@@ -209,7 +241,7 @@ fn main() {
             let mut v = w.clone();
             if cli.rest[0] == "tamper" && cli.rest.len() >= 5 { let bit: usize = cli.rest[4].parse().unwrap_or(0); let hl = if w[1] < 192 { 2 } else if w[1] < 224 { 3 } else { 6 }; v[hl + bit / 8] ^= 1 << (bit % 8); }
             let pwd = if cli.rest[0] == "wrongpw" && cli.rest.len() >= 5 { unhx(&cli.rest[4]) } else { pw.clone() };
-            let r = guarded(|| { let mut k = parse_secret(&v)?; k.remove_password(&Password::from(&pwd[..])).ok()?; k.to_bytes().ok() });
+            let r = guarded(|| { if v[0] & 0x3f == 7 { let mut k = <pgp::packet::SecretSubkey as LockKey>::parse(&v)?; k.remove_password(&Password::from(&pwd[..])).ok()?; k.to_bytes().ok() } else { let mut k = <SecretKey as LockKey>::parse(&v)?; k.remove_password(&Password::from(&pwd[..])).ok()?; k.to_bytes().ok() } });
             let (imp, pred) = match (&r, cli.rest[0].as_str()) {
                 (Ok(Some(b)), "locked") => (if *b == orig { "restored".to_string() } else { "DIFFERENT-MATERIAL".to_string() }, *b == orig),
                 (Ok(None), "locked") => ("unlock-failed".to_string(), false),
@@ -240,6 +272,35 @@ fn main() {
             let (vn, params) = &vars[(off + i * 7) % vars.len()];
             let pw = &pws[(ki + i) % pws.len()];
             cx.lock_case(kname, sk, vn, params, pw);
+        }
+    }
+    // secret subkeys (packet type 7): the AEAD protection binds the packet type
+    {
+        let subs: Vec<(String, pgp::packet::SecretSubkey)> = [(KeyVersion::V4, 810u64, "v4-sub-cv25519"), (KeyVersion::V6, 811, "v6-sub-x25519")].iter()
+            .filter_map(|(v, s, n)| guarded(|| gen_key_with_subkey(*v, *s)).ok().and_then(|k| k.secret_subkeys.first().map(|x| (n.to_string(), x.key.clone())))).collect();
+        let n = if thorough { vars.len() } else { 30 };
+        for (ki, (kname, sub)) in subs.iter().enumerate() {
+            let off = cx.rng.below(vars.len() as u64) as usize;
+            for i in 0..n {
+                let (vn, params) = &vars[(off + i * 11) % vars.len()];
+                cx.lock_case(kname, sub, vn, params, &pws[(ki + i) % pws.len()]);
+            }
+            // every AEAD variant at least once
+            for (vn, params) in vars.iter().filter(|(n, _)| n.starts_with("aead-") && (n.ends_with("argon2") || n.ends_with("iter"))).take(if thorough { 100 } else { 6 }) {
+                cx.lock_case(kname, sub, vn, params, b"sub pw");
+            }
+        }
+        // a locked packet body behind the other packet type must not unlock (AEAD), primary <-> subkey
+        for (kname, sk) in keys.iter().take(3) {
+            for (vn, params) in vars.iter().filter(|(n, _)| n.starts_with("aead-") && n.ends_with("iter")).take(3) {
+                let mut k = sk.clone();
+                if k.set_password_with_s2k(&Password::from("relabel"), params.clone()).is_err() { continue; }
+                let Ok(mut w) = Packet::from(k).to_bytes() else { continue; };
+                w[0] = (w[0] & 0xC0) | 7;
+                let r = guarded(|| { let mut s = <pgp::packet::SecretSubkey as LockKey>::parse(&w)?; s.remove_password(&Password::from("relabel")).ok().map(|_| true) });
+                let unlocked = matches!(r, Ok(Some(true)));
+                cx.out.case("", &[], &["relabel".into(), kname.clone(), vn.clone(), hx(&w)], if unlocked { "UNLOCKED under another packet type" } else { "rejected" }, Some(!unlocked), "aead-packet-type-binding");
+            }
         }
     }
     // passwords at the edge of the iterated S2K octet count: when salt + password is longer than the
